@@ -75,6 +75,10 @@ def voteBlock (n : Node) : Option Block :=
   | some pv => (extractProof n pv).bind (fun (x : Proof × Option Block) => x.2)
   | none => none
 
+/-- the VIEW_CHANGE a node builds when the election timer of its view fires (`moveToNextLeaderByElection`) -/
+def ownVote (n : Node) : VCMsg :=
+  ⟨⟨⟨tVC, n.cfg.inst, n.cfg.height, n.view, voteProof n⟩, mySig n.cfg⟩, voteBlock n⟩
+
 /-- bookkeeping that makes no statement: the view and `latestNV` may go up, other members' PREPAREs,
 COMMITs and votes may be logged; stored proposals and the prepared view stay -/
 structure Quiet (a b : Node) : Prop where
@@ -188,19 +192,27 @@ inductive Blk (e : Event) (spi0 : List Spi) : Node → Node → List Out → Lis
       (hblk : ∃ b, ppm.block = some b ∧ (b.hash = ppm.c.header.hash
           ∨ ∃ h, latestBlockFromVCs (a.store.getVCs h a.view) = some (b, ppm.c.header.hash)))
       (hmsg : (∃ rcpt, o = .send rcpt (.preprepare ppm))
-        ∨ (∃ rcpt nvm h, o = .send rcpt (.newView nvm) ∧ nvm.pp = ppm.c ∧ nvm.header.votes = (a.store.getVCs h a.view).map (·.c))) :
+        ∨ (∃ rcpt nvm h, o = .send rcpt (.newView nvm) ∧ nvm.pp = ppm.c ∧ nvm.header.votes = (a.store.getVCs h a.view).map (·.c)
+            ∧ nvm = ⟨⟨tNV, a.cfg.inst, a.cfg.height, a.view, (a.store.getVCs h a.view).map (·.c)⟩, mySig a.cfg, ppm.c, ppm.block⟩
+            ∧ isLeader a.cfg a.cfg.me a.view = true
+            ∧ isQuorum a.cfg ((a.store.getVCs h a.view).map (·.c.sender.id)) = true
+            ∧ (match latestBlockFromVCs (a.store.getVCs h a.view) with
+               | some (b', h') => ppm.block = some b' ∧ ppm.c.header.hash = h'
+               | none => ∀ b, ppm.block = some b → ppm.c.header.hash = b.hash))) :
       Blk e spi0 a { a with store := a.store.storePP ppm } [o] [.acc ppm.c.header.view ppm.c.header.hash f]
   /-- the vote of a node that is not the next leader: sent -/
   | voteSend {a : Node} (vc : VCMsg) (rcpt : List Nat)
       (hv : vc.c.header.view = a.view) (hp : vc.c.header.proof = voteProof a)
       (hpv : ∀ pv, a.prepared = some pv → pv < a.view)
-      (hown : vc.c.sender = mySig a.cfg ∧ vc.c.header.inst = a.cfg.inst ∧ vc.c.header.height = a.cfg.height ∧ vc.c.header.mtype = tVC) :
+      (hown : vc.c.sender = mySig a.cfg ∧ vc.c.header.inst = a.cfg.inst ∧ vc.c.header.height = a.cfg.height ∧ vc.c.header.mtype = tVC)
+      (hvc : vc = ownVote a) :
       Blk e spi0 a a [.send rcpt (.viewChange vc)] [.vote a.view (pfOf vc.c.header.proof) true]
   /-- the vote of the next leader: logged (it goes out inside the NEW_VIEW) -/
   | voteStore {a : Node} (vc : VCMsg)
       (hv : vc.c.header.view = a.view) (hp : vc.c.header.proof = voteProof a)
       (hown : vc.c.sender = mySig a.cfg ∧ vc.c.header.inst = a.cfg.inst ∧ vc.c.header.height = a.cfg.height ∧ vc.c.header.mtype = tVC)
-      (hpv : ∀ pv, a.prepared = some pv → pv < a.view) (hb : vc.block = voteBlock a) :
+      (hpv : ∀ pv, a.prepared = some pv → pv < a.view) (hb : vc.block = voteBlock a)
+      (hvc : vc = ownVote a) :
       Blk e spi0 a { a with store := a.store.storeVC vc } [] [.vote a.view (pfOf vc.c.header.proof) false]
 
 /-- `w'` is reached from `w` by blocks that make the statements `g` (oldest first) -/
@@ -224,7 +236,7 @@ theorem Blk.erase {a b : Node} {l : List Out} {g : List LEv} (h : Blk e spi0 a b
   | late h v hash rcpt => rfl
   | decide blk cs => rfl
   | propose ppm f o hh hv hnone hlnv hf ho => simp only [List.filterMap, ho]; rfl
-  | voteSend vc rcpt hv hp _ _ => simp only [List.filterMap, stmtOf, hv]; rfl
+  | voteSend vc rcpt hv hp _ _ _ => simp only [List.filterMap, stmtOf, hv]; rfl
   | voteStore vc => rfl
 
 theorem Runs.erase {w w' : W} {g : List LEv} (h : Runs e spi0 w w' g) :
@@ -734,12 +746,31 @@ theorem onElectedByViewChange_runs (w : W) (view : Nat) (vcs : List VCMsg)
         w'.n.view = view → w'.n.latestNV = view →
         w'.n.store.getPP w'.n.cfg.height view = none → ElectedBy spi0 w'.n hash →
         nvm.header.votes = (w'.n.store.getVCs h' w'.n.view).map (·.c) →
+        nvm = ⟨⟨tNV, w'.n.cfg.inst, w'.n.cfg.height, w'.n.view, (w'.n.store.getVCs h' w'.n.view).map (·.c)⟩, mySig w'.n.cfg,
+                ⟨mkRef w'.n.cfg tPP view hash, mySig w'.n.cfg⟩, some b⟩ →
         (b.hash = hash ∨ ∃ h, latestBlockFromVCs (w'.n.store.getVCs h w'.n.view) = some (b, hash)) →
+        w'.n.cfg = w.n.cfg → w'.n.store = w.n.store →
+        (match latestBlockFromVCs vcs with
+          | some (b', h'') => b = b' ∧ hash = h''
+          | none => hash = b.hash) →
         RunsE e spi0 w' (({ w' with n := { w'.n with store := w'.n.store.storePP ⟨⟨mkRef w'.n.cfg tPP view hash, mySig w'.n.cfg⟩, some b⟩ } } : W).emit
           (.send (others w'.n.cfg) (.newView nvm))) := by
-      intro w' b hash nvm hnv hv' hl' hn' hel hvotes hbk
+      intro w' b hash nvm hnv hv' hl' hn' hel hvotes hexact hbk hc' hs' hsel
+      have hsel' : (match latestBlockFromVCs (w'.n.store.getVCs h' w'.n.view) with
+               | some (b', h'') => (some b : Option Block) = some b' ∧ hash = h''
+               | none => ∀ b0, (some b : Option Block) = some b0 → hash = b0.hash) := by
+        rw [hs', hv', ← hvcs]
+        split
+        · rename_i b' h'' heq
+          rw [heq] at hsel
+          exact ⟨by rw [hsel.1], hsel.2⟩
+        · rename_i heq
+          rw [heq] at hsel
+          intro b0 hb0
+          rw [← Option.some.inj hb0]; exact hsel
       refine RunsE.blk (l := [_]) rfl (.propose ⟨⟨mkRef w'.n.cfg tPP view hash, mySig w'.n.cfg⟩, some b⟩ true _ rfl ?_ ?_ ?_ (Or.inr rfl) ?_ ⟨rfl, rfl, rfl⟩ (fun _ => hel) (by intro h; cases h)
-        ⟨b, rfl, hbk⟩ (Or.inr ⟨_, nvm, h', rfl, hnv, hvotes⟩))
+        ⟨b, rfl, hbk⟩ (Or.inr ⟨_, nvm, h', rfl, hnv, hvotes, hexact, by rw [hc', hv']; exact hlead,
+          by rw [hc', hs', hv', ← hvcs]; exact hqv, hsel'⟩))
       · show view = w'.n.view; omega
       · rw [hv']; exact hn'
       · omega
@@ -749,7 +780,8 @@ theorem onElectedByViewChange_runs (w : W) (view : Nat) (vcs : List VCMsg)
     · rename_i b hash heq
       exact h0.trans (store w1 b hash _ rfl hview i5 hnone1 (helect hash (Or.inl ⟨b, heq⟩) w1 i1 i2 hview)
         (by show vcs.map (·.c) = _; rw [i2, hview, hvcs])
-        (Or.inr ⟨h', by rw [i2, hview, ← hvcs]; exact heq⟩))
+        (by rw [i2, hview, ← hvcs])
+        (Or.inr ⟨h', by rw [i2, hview, ← hvcs]; exact heq⟩) i1 i2 (by rw [heq]; exact ⟨rfl, rfl⟩))
     · rename_i hnone
       have h1 : RunsE e spi0 w1 _ := askProposal_runs w1 w1.n.cfg.height view
       obtain ⟨p1, p2, p3, _, _, p6⟩ := askProposal_n w1 w1.n.cfg.height view
@@ -763,7 +795,8 @@ theorem onElectedByViewChange_runs (w : W) (view : Nat) (vcs : List VCMsg)
         have hsp' : spi0 = Spi.proposal b cd :: rest := by rw [← hspi, ← i8]; exact hsp
         refine (h0.trans h1).trans (store w2 b b.hash _ rfl (by rw [p3]; exact hview) (by rw [p6]; exact i5) ?_
           (helect b.hash (Or.inr ⟨hnone, b, cd, rest, hsp', rfl⟩) w2 (by rw [p1]; exact i1) (by rw [p2]; exact i2) (by rw [p3]; exact hview))
-          (by show vcs.map (·.c) = _; rw [p2, i2, p3, hview, hvcs]) (Or.inl rfl))
+          (by show vcs.map (·.c) = _; rw [p2, i2, p3, hview, hvcs])
+          (by rw [p2, i2, p3, hview, ← hvcs, p1]) (Or.inl rfl) (by rw [p1]; exact i1) (by rw [p2]; exact i2) (by rw [hnone]))
         rw [getPP_congr p1 (by rw [p2]) view]; exact hnone1
       · exact h0.trans h1
 
@@ -805,6 +838,7 @@ theorem vote_runs (w1 : W) (vc : VCMsg) (h nv : Nat) (hv : vc.c.header.view = w1
     (hp : vc.c.header.proof = voteProof w1.n) (hK1 : LeaderPPs w1.n)
     (hown : vc.c.sender = mySig w1.n.cfg ∧ vc.c.header.inst = w1.n.cfg.inst ∧ vc.c.header.height = w1.n.cfg.height ∧ vc.c.header.mtype = tVC)
     (hpv : ∀ pv, w1.n.prepared = some pv → pv < w1.n.view) (hb : vc.block = voteBlock w1.n)
+    (hvc : vc = ownVote w1.n)
     (hspi : w1.spi = spi0) :
     RunsE e spi0 w1 (if isLeader w1.n.cfg w1.n.cfg.me nv = true then
         checkElected { w1 with n := { w1.n with store := w1.n.store.storeVC vc } } h nv
@@ -812,9 +846,9 @@ theorem vote_runs (w1 : W) (vc : VCMsg) (h nv : Nat) (hv : vc.c.header.view = w1
   split
   · rename_i hl
     have h1 : RunsE e spi0 w1 ({ w1 with n := { w1.n with store := w1.n.store.storeVC vc } } : W) :=
-      RunsE.blk (l := []) (by simp) (.voteStore vc hv hp hown hpv hb)
+      RunsE.blk (l := []) (by simp) (.voteStore vc hv hp hown hpv hb hvc)
     exact h1.trans (checkElected_runs _ _ _ hl (hK1.of_same rfl (storeVC_pps _ _) (Nat.le_refl _)) hspi)
-  · exact RunsE.blk (l := [_]) rfl (.voteSend vc _ hv hp hpv hown)
+  · exact RunsE.blk (l := [_]) rfl (.voteSend vc _ hv hp hpv hown hvc)
 
 theorem voteBlock_eq (n : Node) :
     (match n.prepared with
@@ -850,7 +884,7 @@ theorem election_runs (w : W) (h v : Nat) (hK : LeaderPPs w.n) (hvo : ViewsOK w.
       rw [hview]
       unfold wrap64 U64 at hle ⊢
       omega
-    refine h0.trans (vote_runs w1 vc h _ ?_ hview.symm ?_ hK1 ?_ ?_ ?_ (by rw [i8]; exact hspi))
+    refine h0.trans (vote_runs w1 vc h _ ?_ hview.symm ?_ hK1 ?_ ?_ ?_ ?_ (by rw [i8]; exact hspi))
     · rw [← hvc]; exact hview.symm
     · rw [← hvc]; exact voteProof_eq w1.n
     · rw [← hvc]; exact ⟨rfl, rfl, by show h = w1.n.cfg.height; rw [i1]; exact hh, rfl⟩
@@ -859,6 +893,13 @@ theorem election_runs (w : W) (h v : Nat) (hK : LeaderPPs w.n) (hvo : ViewsOK w.
       have := hvo.prep pv hp
       omega
     · rw [← hvc]; exact voteBlock_eq w1.n
+    · rw [← hvc]
+      unfold ownVote
+      have e1 := voteProof_eq w1.n
+      have e2 := voteBlock_eq w1.n
+      have eh : h = w1.n.cfg.height := by rw [i1]; exact hh
+      rw [← e1, ← e2, eh, hview]
+      rfl
 
 theorem startTerm_runs (w : W) (c : Bool) (hpps : w.n.store.pps = []) (hprep : w.n.prepared = none) (hspi : w.spi = spi0) :
     RunsE e spi0 w (startTerm w c) := by
